@@ -182,7 +182,7 @@ def rule_sql(program, ctx, fields, prop=P, rid="C01.sql"):
         "taint to sink = SQL text: each hole of each f-string / % / .format fragment in Subscription.evaluate_filter and build_query is "
         "classified by origin (validated filter field) and by syntactic position in the SQL skeleton (inside '…' or bare); adequacy: "
         "quoted -> HEX | quote-doubled | int; bare -> int | assembled-safe fragment; the text handed to sa.text() must be assembled-safe",
-        floor=12,
+        floor=6,
     )
     ef = program.func("nostr_relay.storage.db:Subscription.evaluate_filter")
     params = [a.arg for a in ef.args.args]
@@ -239,7 +239,7 @@ def rule_exec(program, ctx, prop=P, rid="C01.exec"):
         rid,
         "taint to sink = generated Python: every hole of every clause template in kv.compile_match_from_query and base.compile_filters is "
         "a !r / %r conversion, or an int read from the constant table FIELDS_TO_COLUMNS; the source handed to exec(compile(…)) is assembled-safe",
-        floor=8,
+        floor=4,
     )
     kv = program.module("nostr_relay.storage.kv")
     table_ok = False
@@ -282,7 +282,7 @@ def rule_validate(program, ctx, prop=P, rid="C01.validate"):
         "BaseStorage.subscribe hands the subscription class only the list filled with NostrQuery.model_validate(raw) results; in "
         "model_validate every path to super().model_validate(obj) overwrote obj['tags'] with the locally built list or popped the key; "
         "tag names are k[1] under len(k) == 2; check_tags raises for non-str values; run_single_query / planner validate raw filters",
-        floor=6,
+        floor=3,
     )
     sub = program.func("nostr_relay.storage.base:BaseStorage.subscribe")
     lists = {}
@@ -437,7 +437,7 @@ def rule_planner(program, ctx, prop=P, rid="C01.planner"):
         "kv.planner: for each of since/until/ids/kinds/authors a `query_items.append((\"<field>\", …))` sits under that field's presence test, "
         "every tag pair is appended, and QueryPlan receives query_items itself (tuple(query_items)); kv.compile_match_from_query: every "
         "branch of the dispatch adds a clause (no condition is silently ignored)",
-        floor=7,
+        floor=3,
     )
     pl = program.func("nostr_relay.storage.kv:planner")
     have = {}
@@ -533,7 +533,7 @@ def rule_cmp(program, ctx, prop=P, rid="C01.cmp"):
         rid,
         "comparator table over the three matchers (SQL skeleton, generated LMDB clause, in-memory check_event): `since` bounds created_at "
         "from below (>=, >), `until` from above (<=, <)",
-        floor=6,
+        floor=3,
     )
     ef = program.func("nostr_relay.storage.db:Subscription.evaluate_filter")
     for n in walk_no_nested(ef):
@@ -594,7 +594,7 @@ def run(program, ctx):
         "C01.model",
         "marks derived from the NostrQuery model: HEX for ids/authors only if AfterValidator(ids_are_hex) is attached and ids_are_hex "
         "returns only items whose every character passed a hex-only alphabet test; INT for int-annotated fields",
-        floor=6,
+        floor=3,
     )
     fields = derive_model_fields(program, ctx, rid)
     rule_sql(program, ctx, fields)
